@@ -17,14 +17,14 @@ func init() {
 	register(&Check{
 		ID: "C10", Level: "exploration", Primary: "pipelines", EvalCount: "pipelines_checked",
 		Rule: "pipelines <k requests> Unbind <m requests> for all k,m in 0..3 (0..8 in thorough) x {whole pipeline in one write (same TCP segment), one write per frame, byte-dribbled} x {no unbind route, unbind route registered, unbind route whose handler panics} x " +
-			"{earlier handlers finished, earlier handlers parked on a harness gate (also 63..300 of them at once), an earlier handler that panicked and was recovered} x Unbind message IDs {555, 0, 1, 99, 2^31-1} x {plain, TLS}; the requests after the Unbind include every operation kind and a second Unbind. Oracle: the set of dispatched message IDs equals the k earlier ones; " +
+			"{earlier handlers finished, earlier handlers parked on a harness gate (also 63..300 of them at once), an earlier handler that panicked and was recovered} x Unbind message IDs {555, 0, 1, 99, 2^31-1} x {plain, TLS listener, StartTLS-upgraded}; the requests after the Unbind include every operation kind and a second Unbind. Oracle: the set of dispatched message IDs equals the k earlier ones; " +
 			"the unbind handler ran exactly once when registered; the strictly parsed stream up to EOF contains exactly one response per earlier request and nothing carrying the Unbind's or a later request's message ID; " +
 			"with parked handlers EOF is not seen before the gate opens and is seen after. A second scenario stops the server while an Unbind and its followers sit unread in the connection's buffer behind a held StartTLS (read-loop) handler: no answer to the Unbind, nothing behind it dispatched. distinct_nontrivial = distinct (k, m, write mode, route, parked, transport) combinations",
 		Assume: []string{"'dispatched' is observed by recording handlers on every route kind including the default route"},
 		Phases: func(tier string, seed int64) []Phase {
 			return []Phase{{Name: "pipelines", Run: c10Run}}
 		},
-		MinObserved: []string{"pipelines_checked", "requests_after_unbind_sent", "eof_withheld_until_release_observed", "pipelines_after_a_write_fault", "pipelines_with_an_earlier_handler_panic", "unbinds_with_unusual_message_ids", "stops_with_an_unbind_pipeline_in_the_read_buffer"},
+		MinObserved: []string{"pipelines_checked", "requests_after_unbind_sent", "eof_withheld_until_release_observed", "pipelines_after_a_write_fault", "pipelines_with_an_earlier_handler_panic", "unbinds_with_unusual_message_ids", "stops_with_an_unbind_pipeline_in_the_read_buffer", "pipelines_inside_a_starttls_upgraded_session"},
 	})
 }
 
@@ -54,7 +54,7 @@ func c10Run(c *Ctx) {
 				for _, mode := range []string{"one-write", "per-frame", "dribble"} {
 					for _, route := range []int{0, 1, 2} {
 						for _, parked := range []bool{false, true} {
-							for _, tr := range []string{"plain", "tls"} {
+							for _, tr := range []string{"plain", "tls", "starttls"} {
 								if parked && k == 0 {
 									continue
 								}
@@ -262,6 +262,9 @@ func c10One(c *Ctx, pki *PKI, srvs map[string]*Srv, cs c10Case, r *Rand, idx int
 	// one long-lived server per worker and transport; every case installs its own mux (routes are in place before the
 	// case's connection is accepted)
 	srv := srvs[cs.Transport]
+	if cs.Transport == "starttls" {
+		srv = srvs["plain"]
+	}
 	if cs.WriteFault {
 		srv = srvs["writefault"]
 		if srv == nil {
@@ -276,7 +279,16 @@ func c10One(c *Ctx, pki *PKI, srvs map[string]*Srv, cs c10Case, r *Rand, idx int
 	m.Delete(rec("delete"))
 	m.ExtendedOperation(rec("ext-before"), "1.7.1")
 	m.ExtendedOperation(rec("ext-after"), "1.7.2")
-	m.ExtendedOperation(rec("ext-starttls"), gldap.ExtendedOperationStartTLS)
+	var upgradedOnce atomic.Bool
+	m.ExtendedOperation(func(w *gldap.ResponseWriter, req *gldap.Request) {
+		if cs.Transport == "starttls" && upgradedOnce.CompareAndSwap(false, true) {
+			// the connection's one real upgrade, before the pipeline under test
+			w.Write(req.NewExtendedResponse(gldap.WithResponseCode(0)))
+			req.StartTLS(pki.ServerOnly)
+			return
+		}
+		rec("ext-starttls")(w, req)
+	}, gldap.ExtendedOperationStartTLS)
 	m.DefaultRoute(rec("default"))
 	if cs.Route {
 		m.Unbind(func(w *gldap.ResponseWriter, req *gldap.Request) {
@@ -298,6 +310,24 @@ func c10One(c *Ctx, pki *PKI, srvs map[string]*Srv, cs c10Case, r *Rand, idx int
 		return
 	}
 	defer cl.Close()
+	if cs.Transport == "starttls" {
+		cl.Send(sber.Message(50, sber.ExtendedRequest([]byte(sber.OIDStartTLS), nil, false), nil).Encode())
+		if _, err := cl.ReadMsg(patience); err != nil {
+			c.Inconclusive("starttls response: " + err.Error())
+			return
+		}
+		tc := tls.Client(cl.C, pki.ClientPlain)
+		cl.C.SetDeadline(time.Now().Add(patience))
+		if err := tc.Handshake(); err != nil {
+			c.Inconclusive("starttls handshake: " + err.Error())
+			return
+		}
+		cl.C.SetDeadline(time.Time{})
+		under := cl.C
+		cl = wrapClient(tc)
+		cl.Under = under
+		c.Count("pipelines_inside_a_starttls_upgraded_session", 1)
+	}
 	if cs.WriteFault {
 		time.Sleep(300 * time.Millisecond) // the absolute write deadline set at accept has passed
 		c.Count("pipelines_after_a_write_fault", 1)
